@@ -206,9 +206,9 @@ class _CRTFParser:
             return {'global_meta': dict(self.global_meta),
                     'n_shapes': len(self.shapes)}
 
-        for line in _verif.traced(self.region_string.split('\n'),
-                                  'crtf.read.line', _state):
+        for line in self.region_string.split('\n'):
             self.parse_line(line)
+            _verif.emit('crtf.read.line', _state)  # (verif)
 
     def parse_global_meta(self, global_meta_str):
         """
